@@ -569,6 +569,14 @@ func genC11(g *gen, seed int64) *Program {
 			}
 			r.Handler = append(r.Handler, Op{K: "return", St: g.maybeStatus()})
 		}
+		if r.Kind != KUnary && g.p(0.15) {
+			// turned down, or answered, before the request stream is looked at
+			// (an authorising interceptor; a handler that needs no input)
+			r.Handler = []Op{{K: "return", St: g.maybeStatus()}}
+			if g.p(0.3) {
+				r.Handler = []Op{{K: "sendhdr", MD: g.md(2)}, {K: "recvall"}, {K: "return", St: g.maybeStatus()}}
+			}
+		}
 		r.StopOnErr = g.p(0.7)
 		p.RPCs = append(p.RPCs, r)
 	}
@@ -716,6 +724,12 @@ func oracleC11(s *Sim) {
 			if kv.K == "Expect" {
 				expects = true
 			}
+		}
+		if expects && entered > 0 && raw.RT-raw.T >= int64(time.Hour) {
+			// accepted, handler ran - and still the exchange only finished once
+			// the client had given up waiting for "100 Continue" or the end of
+			// the reply and sent its body anyway
+			v.fail("C11", fmt.Sprintf("reply-not-finished-until-body-sent|%d", st), "%s %s with Expect: 100-continue: the request was accepted and the handler ran, but the client got neither \"100 Continue\" nor a complete reply until it gave up waiting and sent its body (%s later)", rq.Method, rq.Path, time.Duration(raw.RT-raw.T))
 		}
 		if expects && entered == 0 && raw.RT-raw.T >= int64(time.Hour) {
 			// the client waited for "100 Continue" or an answer and got neither
